@@ -319,7 +319,9 @@ def dump(mydb, f, **options):
     db.enum_attribs_to_keys()
     if len(db.signals) > 0:
         free_signals_dummy_frame = canmatrix.Frame("VECTOR__INDEPENDENT_SIG_MSG")
-        free_signals_dummy_frame.arbitration_id = canmatrix.ArbitrationId(id=0x40000000, extended=True)
+        # set arbitration id manually, the constructor does not allow this special id (as in dbc.dump)
+        free_signals_dummy_frame.arbitration_id.extended = True
+        free_signals_dummy_frame.arbitration_id.id = 0x40000000
         free_signals_dummy_frame.signals = db.signals
         db.add_frame(free_signals_dummy_frame)
 
